@@ -167,14 +167,24 @@ fn default_engine(seed: u64) {
 
 fn race(seed: u64) {
     use reed_solomon_simd::engine::tables;
+    use std::sync::atomic::{AtomicBool, Ordering};
     use std::sync::{Arc, Barrier};
     let mut rng = Rng::new(seed);
+    // always one early and one late polynomial evaluation, plus 0-2 other roles
     let n = rng.range(2, 4);
     let barrier = Arc::new(Barrier::new(n));
+    // set (Relaxed: no synchronisation of its own) by a thread that has
+    // finished a polynomial evaluation; "late" threads start theirs only then
+    let done = Arc::new(AtomicBool::new(false));
+    let mut kinds: Vec<usize> = (0..n).map(|_| rng.below(4)).collect();
+    kinds[0] = 4;
+    kinds[1] = 5;
+    rng.shuffle(&mut kinds);
     let hs: Vec<_> = (0..n)
         .map(|t| {
             let b = barrier.clone();
-            let kind = rng.below(4);
+            let done = done.clone();
+            let kind = kinds[t];
             let s = rng.next_u64();
             std::thread::spawn(move || {
                 b.wait();
@@ -198,7 +208,7 @@ fn race(seed: u64) {
                         let x = &*tables::SKEW;
                         u64::from(x[5]) << 16 | u64::from(x[65534])
                     }
-                    _ => {
+                    3 => {
                         // encoder created here, finished on another thread
                         let mut enc = reed_solomon_simd::rate::HighRateEncoder::new(3, 2, 2, Naive::new(), None).expect("new");
                         enc.add_original_shard([1u8, 2]).expect("add");
@@ -214,6 +224,23 @@ fn race(seed: u64) {
                         });
                         t2.join().expect("join")
                     }
+                    _ => {
+                        // polynomial evaluation as in decode (first use builds
+                        // LogWalsh); kind 5 starts only after another thread's
+                        // evaluation has completed
+                        if kind == 5 {
+                            while !done.load(Ordering::Relaxed) {
+                                std::thread::yield_now();
+                            }
+                        }
+                        let mut e = Box::new([0u16; 65536]);
+                        e[1] = 1;
+                        e[6] = 1;
+                        Naive::eval_poly(&mut e, 8);
+                        done.store(true, Ordering::Relaxed);
+                        let bytes: Vec<u8> = e.iter().take(512).flat_map(|x| (u32::from(*x) % 65535).to_le_bytes()).collect();
+                        hash_bytes(4, &bytes)
+                    }
                 };
                 (t, kind, h)
             })
@@ -221,7 +248,7 @@ fn race(seed: u64) {
         .collect();
     for h in hs {
         let (t, kind, d) = h.join().expect("thread panicked");
-        println!("thread {t} kind {kind} {d}");
+        println!("thread {t} kind {} {d}", kind.min(4));
     }
 }
 
